@@ -56,7 +56,10 @@ def dsAdd (st : DsState) (p : DsPacket) : Option DsState :=
   | some (_, (ks, _)) =>
     -- `variable_mapping[apid] != packet.keys()` compares key *sets*
     if (ks.all (keys.contains ·)) && (keys.all (ks.contains ·)) then
-      some (st.map (fun e => if e.1 == p.apid then (e.1, (e.2.1, e.2.2 ++ [row])) else e))
+      -- `data_dict[apid][key].append(value)`: each value goes to the column of its name, whatever the order of the
+      -- items in this packet
+      let row' := ks.filterMap (fun k => (p.cells.find? (·.1 == k)).map (·.2))
+      some (st.map (fun e => if e.1 == p.apid then (e.1, (e.2.1, e.2.2 ++ [row'])) else e))
     else none
 
 def dsBuild (st : DsState) : List DsPacket → Option DsState
